@@ -10,18 +10,19 @@ import (
 	"github.com/go-logr/logr"
 	"github.com/klauspost/compress/s2"
 	"github.com/pckhoi/meow"
+	apiutils "github.com/wrgl/wrgl/pkg/api/utils"
 	"github.com/wrgl/wrgl/pkg/encoding"
 	"github.com/wrgl/wrgl/pkg/encoding/packfile"
 	"github.com/wrgl/wrgl/pkg/encoding/pktline"
-	apiutils "github.com/wrgl/wrgl/pkg/api/utils"
 	"github.com/wrgl/wrgl/pkg/objects"
 	objmock "github.com/wrgl/wrgl/pkg/objects/mock"
 )
 
 // callOut carries what an entry point observed besides ok / error.
 type callOut struct {
-	Left []string // key prefixes left in the destination store by a REFUSED packfile object
-	Keys []string // (a few of) those keys, hex
+	Left  []string // key prefixes left in the destination store by a REFUSED packfile object
+	Keys  []string // (a few of) those keys, hex
+	Stage string   // set once a validating step accepted the bytes ("validated, then trusted")
 }
 
 // An entry is one real entry point.  Demand says which verdict of the specification
@@ -89,10 +90,11 @@ var entries = []*entry{
 		return nil
 	}},
 	// validated, then trusted: what ValidateStrListBytes accepts must be safe to Decode
-	{Name: "objects.ValidateStrListBytes+Decode", Kinds: "strlist", Demand: "verdict", Fn: func(b []byte, e *env, _ *callOut) error {
+	{Name: "objects.ValidateStrListBytes+Decode", Kinds: "strlist", Demand: "verdict", Fn: func(b []byte, e *env, out *callOut) error {
 		if _, err := objects.ValidateStrListBytes(b); err != nil {
 			return err
 		}
+		out.Stage = "validated"
 		sink = objects.NewStrListDecoder(true).Decode(b)
 		return nil
 	}},
